@@ -167,10 +167,10 @@ class AuxReports(SubCheck):
             climod.CommandLineError = CommandLineError
             climod.log_memory_usage = lambda *a, **k: None
             climod.PhasedInputReader = None
-            world = SymWorld(overrides={"whatshap.core": stub_core, "whatshap.cli": climod, "whatshap.readselect": types.SimpleNamespace(readselection=lambda rs, cov, preferred_source_ids=None, bridging=True: set(range(len(rs))))})
-            phase = world.load("whatshap.cli.phase")
-            vcf = world.load("whatshap.vcf")
-            pedmod = world.load("whatshap.pedigree")
+            if not hasattr(self, "_world"):
+                world = SymWorld(overrides={"whatshap.core": stub_core, "whatshap.cli": climod, "whatshap.readselect": types.SimpleNamespace(readselection=lambda rs, cov, preferred_source_ids=None, bridging=True: set(range(len(rs))))})
+                self._world = (world.load("whatshap.cli.phase"), world.load("whatshap.vcf"), world.load("whatshap.pedigree"))
+            phase, vcf, pedmod = self._world
             phase.__dict__["__builtins__"]["open"] = fs.open
             pedmod.__dict__["__builtins__"]["open"] = fs.open
             tmpdir = None
